@@ -321,6 +321,27 @@ static void fa_case(uint64_t idx, void *ctx)
     mc_nontrivial();
     mc_outcome(idx);
 }
+/* ---- objects of other modules in the tracked build: once they are deleted the table is empty again, whatever they went through in between */
+static void so_desc(uint64_t idx, void *ctx, char *b, size_t n) { static const char *w[3] = { "open (refused: nobody listens), delete", "open, close, open again, delete", "open, open again, close, delete" }; (void) ctx; snprintf(b, n, "client socket for a UNIX path nobody listens on: %s; records left in the table", w[idx]); }
+static void so_case(uint64_t idx, void *ctx)
+{
+    (void) ctx; mc_set_shape("socket"); libast_debug_level = 0; sibling_tables_prelude();
+    libast_debug_level = 5; malloc_rec.cnt = 0; g_ndead = 0; g_realloc_mode = 0;
+    char u[300]; const char *td = getenv("VERIF_SCRATCH"); snprintf(u, sizeof u, "unix:%s/nobody-%d", td ? td : "/tmp", (int) getpid());
+    spif_url_t url = spif_url_new_from_ptr((spif_charptr_t) u);
+    spif_socket_t s = spif_socket_new_from_urls((spif_url_t) NULL, url);
+    spif_url_del(url);
+    if (s) {
+        spif_socket_open(s);
+        if (idx == 1) { spif_socket_close(s); spif_socket_open(s); }
+        if (idx == 2) { spif_socket_open(s); spif_socket_close(s); }
+        spif_socket_del(s);
+    }
+    if (malloc_rec.cnt != 0) FAIL("spifmem", "model:record-count", "socket", "%lu records are left after the socket object was deleted", (unsigned long) malloc_rec.cnt);
+    malloc_rec.cnt = 0; libast_debug_level = 0;
+    mc_nontrivial();
+    mc_outcome(idx);
+}
 #endif
 int main(int argc, char **argv)
 {
@@ -339,6 +360,7 @@ int main(int argc, char **argv)
     libast_debug_level = 0;
 #if TRACKED
     if (!mc_arg("only", NULL)) mc_e2_level("free_array", 3, 8, fa_case, fa_desc, NULL);
+    if (!mc_arg("only", NULL)) mc_e2_level("other_modules", 1, 3, so_case, so_desc, NULL);
 #if defined(__SANITIZE_ADDRESS__) || (defined(__has_feature) && __has_feature(address_sanitizer))
     mc_e2_level("many_blocks", 66000, (uint64_t) NMANY * 3, many_case, many_desc, NULL);
 #else
